@@ -779,6 +779,147 @@ def _e2e_status_sweep(ctx):
         ts.close()
 
 
+def e2e_payload_types(ctx):
+    try:
+        _e2e_payload_types(ctx)
+    except InfraError:
+        raise
+    except Exception as e:
+        site = exc_site(e)
+        if site.endswith("@None"):
+            raise
+        ctx.fail("e2e-exception:" + site, {"e2e": "payload types"}, repr(e)[:300])
+
+
+def _e2e_payload_types(ctx):
+    """what the application hands to send/sendall (bytes, bytearray, memoryview, ASCII and non-ASCII text) arrives as
+    exactly its bytes / its UTF-8 encoding, on stdout and on stderr, through sendall and through the usual
+    `n = chan.send(s); s = s[n:]` loop; every payload is larger than one packet and than the channel window"""
+    import paramiko
+    from tests._loop import LoopSocket
+
+    rng = ctx.rng
+    LIMIT = 300 if ctx.thorough else 150
+    WINDOW, PACKET = 40000, 16384
+
+    class Srv(paramiko.ServerInterface):
+        def get_allowed_auths(self, u):
+            return "none"
+
+        def check_auth_none(self, u):
+            return paramiko.AUTH_SUCCESSFUL
+
+        def check_channel_request(self, kind, chanid):
+            return paramiko.OPEN_SUCCEEDED
+
+        def check_channel_exec_request(self, channel, command):
+            return True
+
+    def text(alphabet, nchars):
+        return "".join(rng.choice(alphabet) for _ in range(nchars))
+
+    raw = rng.randbytes(130000)
+    kinds = {
+        "bytes": lambda: raw,
+        "bytearray": lambda: bytearray(raw),
+        "memoryview": lambda: memoryview(raw),
+        "str-ascii": lambda: text("abcXYZ 019\n", 130000),
+        "str-2byte": lambda: text("aé\u00fc\u03a9z", 90000),
+        "str-3byte": lambda: text("a\u20ac\u4e2d\u0939b", 60000),
+        "str-4byte": lambda: text("a\U0001f600\U00010348b", 50000),
+        "str-mixed": lambda: text("a\u00e9\u20ac\U0001f600 ", 70000),
+    }
+    combos = []
+    for k, name in enumerate(kinds):
+        combos.append((name, "sendall" if k % 2 == 0 else "loop", "out" if k % 3 else "err"))
+    for name in ("str-2byte", "str-3byte", "str-4byte", "str-mixed", "bytes"):
+        combos.append((name, rng.choice(["sendall", "loop"]), rng.choice(["out", "err"])))
+    if not ctx.thorough:
+        combos = combos[:8] + rng.sample(combos[8:], 2)
+
+    socks, sockc = LoopSocket(), LoopSocket()
+    sockc.link(socks)
+    tc, ts = paramiko.Transport(sockc), paramiko.Transport(socks)
+    ts.add_server_key(paramiko.RSAKey.from_private_key_file(os.path.join(REPO, "tests", "_support", "rsa.key")))
+    try:
+        ts.start_server(threading.Event(), Srv())
+        tc.start_client(timeout=LIMIT)
+        tc.auth_none("u")
+        tc._channel_counter = 2
+        jobs = []
+        for name, how, stream in combos:
+            c = tc.open_session(window_size=WINDOW, max_packet_size=PACKET, timeout=LIMIT)
+            c.exec_command("x")
+            s = ts.accept(LIMIT)
+            if s is None:
+                raise InfraError("C21 payload types: server did not get the channel")
+            payload = kinds[name]()
+            want = payload.encode("utf-8") if isinstance(payload, str) else bytes(payload)
+            jobs.append({"name": name, "how": how, "stream": stream, "c": c, "s": s, "payload": payload, "want": want,
+                         "out": b"", "err": b""})
+        errors = []
+
+        def write(j):
+            try:
+                s, data = j["s"], j["payload"]
+                send = s.send if j["stream"] == "out" else s.send_stderr
+                if j["how"] == "sendall":
+                    (s.sendall if j["stream"] == "out" else s.sendall_stderr)(data)
+                else:
+                    while len(data) > 0:            # the idiom from the documentation of socket.send
+                        n = send(data)
+                        if n <= 0:
+                            raise InfraError("C21 payload types: send returned %r" % n)
+                        data = data[n:]
+                s.shutdown_write()
+                s.close()
+            except Exception as e:
+                errors.append((j["name"], "writer", e))
+
+        def read(j, stream):
+            try:
+                c = j["c"]
+                c.settimeout(LIMIT)
+                f = c.recv if stream == "out" else c.recv_stderr
+                while True:
+                    x = f(8192)
+                    if not x:
+                        break
+                    j[stream] += x
+            except Exception as e:
+                errors.append((j["name"], "reader-" + stream, e))
+
+        ths = []
+        for j in jobs:
+            ths += [threading.Thread(target=write, args=(j,), daemon=True),
+                    threading.Thread(target=read, args=(j, "out"), daemon=True),
+                    threading.Thread(target=read, args=(j, "err"), daemon=True)]
+        for th in ths:
+            th.start()
+        for th in ths:
+            th.join(LIMIT)
+            if th.is_alive():
+                raise InfraError("C21 payload types: transfer did not finish within %d s" % LIMIT)
+        for name, role, e in errors:
+            if isinstance(e, InfraError):
+                raise e
+            ctx.fail("e2e-exception:" + exc_site(e), {"e2e": "payload types", "payload": name, "role": role}, repr(e)[:300])
+        for j in jobs:
+            case = {"e2e": "payload types", "payload": j["name"], "via": j["how"], "stream": j["stream"],
+                    "characters": len(j["payload"]), "encoded-bytes": len(j["want"]), "window": WINDOW, "packet": PACKET}
+            ctx.case(("e2e-payload", j["name"], j["how"], j["stream"]), True)
+            ctx.dist("e2e-payload:" + j["name"])
+            got, other = (j["out"], j["err"]) if j["stream"] == "out" else (j["err"], j["out"])
+            if got != j["want"]:
+                ctx.fail("e2e-payload-differs:" + ("text" if isinstance(j["payload"], str) else "binary"), case,
+                         first_diff(got, j["want"]))
+            if other:
+                ctx.fail("e2e-payload-on-wrong-stream", case, "%d bytes on the other stream" % len(other))
+    finally:
+        tc.close()
+        ts.close()
+
+
 def first_diff(a, b):
     n = next((i for i, (x, y) in enumerate(zip(a, b)) if x != y), min(len(a), len(b)))
     return "got %d bytes, expected %d; first difference at %d (got %s, expected %s)" % (
@@ -879,6 +1020,7 @@ def run(ctx):
     race_runs(ctx)
     # ---- end to end
     e2e_status_sweep(ctx)
+    e2e_payload_types(ctx)
     if ctx.thorough:
         e2e(ctx, 8, 512 * 1024, True, 2, "8x512KiB+zlib+rekey")
         e2e(ctx, 8, 512 * 1024, False, 1, "8x512KiB+rekey", id_offset=3)
